@@ -154,4 +154,31 @@ def r4_time_limit(ctx):
     ctx.ob("C13.R4", "counter-once-per-iteration", inc_ok, "the returned iteration counter is incremented exactly once per loop iteration, after execution.run")
 
 
-RULES = [("C13.R1", r1_bound_before_append), ("C13.R2", r2_both_kinds_count), ("C13.R3", r3_continue_after), ("C13.R4", r4_time_limit)]
+def r5_iteration_budget(ctx):
+    """Every scheduler with an iteration budget: `iterations` is incremented exactly once on the path that starts an
+    execution and `None` is returned under a test of iterations against the budget."""
+    from engine.slicing import FlowSlicer, expand_closure_labels
+    prog = ctx.prog
+    S = "shuttle_schedulers::"
+    n = 0
+    for ty in ("random::RandomScheduler", "round_robin::RoundRobinScheduler", "urw::UrwRandomScheduler", "pct::PctScheduler", "dfs::DfsScheduler"):
+        key = "<" + S + ty + " as shuttle_engine::scheduler::Scheduler>::new_execution"
+        b = prog.get(key)
+        if b is None:
+            ctx.ob("C13.R5", "anchor|" + ty, False, "`%s` not found — rule not established" % key, nontrivial=False)
+            continue
+        n += 1
+        IT = S + ty + ".iterations"
+        inc = [s for s, st in b.assigns() if last_field(st["dst"]) == IT]
+        somes = [s for s, st in b.assigns() if st["dst"]["l"] == 0 and st["rv"]["k"] == "aggr" and st["rv"].get("variant") == "Some"]
+        nones = [s for s, st in b.assigns() if st["dst"]["l"] == 0 and st["rv"]["k"] == "aggr" and st["rv"].get("variant") == "None"]
+        ok = len(inc) == 1 and bool(somes) and all(b.site_dominates(inc[0], s) for s in somes) and b.path_exists(inc[0], lambda x: x == inc[0]) is None
+        ctx.ob("C13.R5", "counted-once|" + ty, ok, "`%s::new_execution` increments iterations exactly once before starting an execution" % ty, loc=b.loc())
+        fs = FlowSlicer(b)
+        okn = bool(nones) and any(("field:" + IT) in expand_closure_labels(prog, fs.guard_labels(s)) and
+                                  ("field:" + S + ty + ".max_iterations") in expand_closure_labels(prog, fs.guard_labels(s)) for s in nones)
+        ctx.ob("C13.R5", "stops-at-budget|" + ty, okn, "`%s::new_execution` returns None under a test of iterations against max_iterations" % ty, loc=b.loc())
+    ctx.floor("C13.R5", "schedulers with an iteration budget", n, 5)
+
+
+RULES = [("C13.R5", r5_iteration_budget), ("C13.R1", r1_bound_before_append), ("C13.R2", r2_both_kinds_count), ("C13.R3", r3_continue_after), ("C13.R4", r4_time_limit)]
